@@ -5,4 +5,5 @@ INVARIANT RoundTripInv
 INVARIANT IdempotentInv
 INVARIANT StructureInv
 INVARIANT AliasInv
+INVARIANT KeyedOrderInv
 INVARIANT FormsDiffer
